@@ -11,6 +11,7 @@ import contextlib
 import io
 import json
 import os
+import pathlib
 import shutil
 import subprocess
 import sys
@@ -23,7 +24,7 @@ ID = "C04"
 LEVEL = "exploration"
 TECHNIQUE = "bounded-exhaustive enumeration of MapSpec pipelines x persisting storages x load histories, observed in the writing interpreter and in a fresh interpreter started after the writer (and its managers) exited"
 RULE = ("G-MAP pipelines (all 1-function pipelines with one, two or three outputs; 2-function pipelines with a single-output first function whose second function consumes only `a`; thorough: every 2-function pipeline whose second function consumes `a` alone or `a` and its sibling `b`) x storage "
-        "{file_array, dict+persist, shared_memory_dict+persist, per-output mix} x load history = a de Bruijn sequence over {load_outputs(all), RunInfo.load, load_xarray_dataset} "
+        "{file_array, dict+persist, shared_memory_dict+persist, per-output mix} (+ for the one-output 1-function pipelines: a run with cleanup=False into a folder that holds stale input files of an attempt that died before run_info.json existed) x load history = a de Bruijn sequence over {load_outputs(all), RunInfo.load, load_xarray_dataset} "
         "in which every entry point follows every other one (quick: ORXO in the writer and again in the fresh interpreter; thorough: a de Bruijn sequence with every ordered pair), executed first in the writing process and then again in a fresh interpreter. "
         "non-trivial = distinct (pipeline shape, storage assignment) with a mapped axis, observed in the fresh interpreter")
 ASSUMPTIONS = ["the fresh interpreter is a child process started after the writer process has exited (all manager processes of the run are gone)",
@@ -148,6 +149,15 @@ def writer_main(jobfile):
             if scope:  # every parameter and output name gets the prefix "<scope>." (file names then contain dots)
                 p.update_scope(scope, inputs="*", outputs="*")
                 inputs = {f"{scope}.{k}": v for k, v in inputs.items()}
+            extra_kw = {}
+            if case.get("prior") == "stale-inputs":
+                # the folder of an earlier attempt that died after writing (other) inputs and before run_info.json existed,
+                # continued with cleanup=False: what the folder records afterwards must be THIS run's inputs
+                from pipefunc._utils import dump as _dump
+                os.makedirs(os.path.join(folder, "inputs"), exist_ok=True)
+                for n_ in inputs:
+                    _dump(["stale", n_], pathlib.Path(folder) / "inputs" / f"{n_}.cloudpickle")
+                extra_kw["cleanup"] = False
             created = {}
             orig = RunInfo.create.__func__
 
@@ -163,7 +173,7 @@ def writer_main(jobfile):
                     if scope and ish:
                         ish = {f"{scope}.{k}": v for k, v in ish.items()}
                     r = p.map(dict(inputs), run_folder=folder, internal_shapes=ish, parallel=False,
-                              storage=storage_arg(case["storage"]), persist_memory=True)
+                              storage=storage_arg(case["storage"]), persist_memory=True, **extra_kw)
             finally:
                 RunInfo.create = classmethod(orig)
             names = [(f"{scope}.{o}" if scope else o) for f in spec["funcs"] for o in f["outs"]]
@@ -289,6 +299,9 @@ def run_unit(unit):
         for st in sts:
             cases.append({"spec": spec, "storage": st})
             keys.append((gen_map.key(spec), str(st)) if gen_map.nontrivial(spec) else None)
+        if len(spec["funcs"]) == 1 and len(spec["funcs"][0]["outs"]) == 1:
+            cases.append({"spec": spec, "storage": "file_array", "prior": "stale-inputs"})
+            keys.append((gen_map.key(spec), "stale-inputs") if gen_map.nontrivial(spec) else None)
         if len(spec["funcs"]) == 1 and len(spec["roots"]) >= 2:
             # scoped names ("s.x", "s.y"): inputs and outputs whose file names contain a dot
             cases.append({"spec": spec, "storage": "file_array", "scope": "s"})
@@ -307,7 +320,7 @@ def run_unit(unit):
 
 
 def replay(art):
-    case = {k: art[k] for k in ("spec", "storage", "scope") if k in art}
+    case = {k: art[k] for k in ("spec", "storage", "scope", "prior") if k in art}
     res = run_batch([case], art.get("seq") or de_bruijn("ORX", 2))
     return [s for s, _ in res[0]]
 
